@@ -407,3 +407,47 @@ pub fn run_sweeps(ctx: &mut Ctx) -> R {
     }
     Ok(())
 }
+
+
+/// raw frame streams judged for C02 (conformance, by refflac only) and C19 (size bound)
+pub fn run_raw(ctx: &mut Ctx) -> R {
+    let ch = ctx.ch.clone();
+    let sent = match send(&ch, &ctx.disk, 8, false) {
+        Ok(s) => s,
+        Err(e) => {
+            ctx.skip_foreign(format!("stream writer refused parameters: {e} (C16's matter)"));
+            return Ok(());
+        }
+    };
+    let clean: Vec<u8> = sent.iter().flat_map(|s| s.bytes.clone()).collect();
+    ctx.describe(|| format!("raw stream of {} frames, {} bytes", sent.len(), clean.len()));
+    let (rf, end) = refflac::parse_raw_frames(&clean);
+    let nt = ctx.disk.0.borrow().frame_sized_transfers > 0;
+    ctx.eval(3, nt);
+    if ctx.is("C02") {
+        if end != StreamEnd::Clean || rf.len() != sent.len() {
+            return viol("nonconforming:frame", format!("raw stream: independent decode stops with {end:?} after {} of {} frames", rf.len(), sent.len()));
+        }
+        for (i, (f, s)) in rf.iter().zip(&sent).enumerate() {
+            if let Some(x) = f.strict.first() {
+                return viol("nonconforming:rule", format!("raw frame {i}: {x}"));
+            }
+            if f.interleaved() != s.samples || f.rate != Some(s.rate) || f.channels != s.channels || f.bps != Some(s.bps) {
+                return viol("nonconforming:pcm", format!("raw frame {i}: independent decoder reconstructs different PCM or parameters"));
+            }
+            if f.variable || f.number != i as u64 {
+                return viol("nonconforming:numbering", format!("raw frame {i} carries number {} (variable={})", f.number, f.variable));
+            }
+        }
+    } else {
+        for (i, (f, s)) in rf.iter().zip(&sent).enumerate() {
+            let n = (s.samples.len() / s.channels as usize) as u64;
+            let bound = crate::scen_rt::frame_bound(n, s.channels as u64, s.bps as u64);
+            let len = (f.end - f.start) as u64;
+            if len > bound {
+                return viol("frame-too-large", format!("raw frame {i}: {len} bytes for {n} samples x {} ch x {} bits; bound {bound}", s.channels, s.bps));
+            }
+        }
+    }
+    Ok(())
+}
